@@ -564,6 +564,61 @@ def kfifo(ctx):
         tc = flow.find(fn, cas_on("kirsch_kfifo_queue::tail_", "tail_ CAS")) + flow.find(fn, cas_on("segment::next", "next CAS"))
         dl = flow.find(fn, {"k": "delete"}) + flow.find(fn, call("release_new_segment"))
         ctx.check(bool(tc), rid2, K + "advance_tail#cas", "tail advanced by CAS", "advance_tail must advance tail_ by CAS", fn.where(), fn=fn)
+    # region predicate of the bounded variant: tail_old lies in the circular interval (head, tail]
+    from .evalx import eval_pure
+    B_ = X + "kirsch_bounded_kfifo_queue::"
+    rid4 = "KF.region-predicate"
+    ctx.rule(rid4, "bounded k-FIFO: in_valid_region(tail_old, tail_current, head_current) holds exactly when tail_old lies in the circular interval "
+                   "(head_current, tail_current] - exhaustive finite evaluation of the predicate over all index triples of a ring of size 6")
+    for fn in flow._shapes(ctx, B_ + "in_valid_region"):
+        if len(fn.params) != 3:
+            ctx.broken.append("in_valid_region: expected three parameters")
+            continue
+        names = [p_["name"] for p_ in fn.params]
+        N = 6
+        bad = None
+        try:
+            for to in range(N):
+                for tc in range(N):
+                    for hc in range(N):
+                        got = bool(eval_pure(fn, dict(zip(names, (to, tc, hc)))))
+                        ref = 1 <= ((to - hc) % N) <= ((tc - hc) % N)
+                        if got != ref and bad is None:
+                            bad = (to, tc, hc, got)
+        except Unknown as ex:
+            ctx.broken.append("in_valid_region not evaluable: %s" % ex)
+            continue
+        ctx.exhaustive[rid4] = True
+        ctx.check(bad is None, rid4, B_ + "in_valid_region#circular-interval", "agrees with 'tail_old in (head, tail]' on all %d triples" % (N ** 3),
+                  "in_valid_region(tail_old=%s, tail=%s, head=%s) returns %s but tail_old is %s the window (head, tail]: a push whose segment fell out of the window is "
+                  "accepted as committed (element stranded: false empty, unbounded overtaking) or a valid one is rolled back" % (
+                      (bad + ("inside" if not bad[3] else "outside",)) if bad else (0, 0, 0, 0, "")), fn.where(), fn=fn)
+    # a pop that takes from the segment that is both head and tail advances the tail first (both variants)
+    rid5 = "KF.tail-advance"
+    ctx.rule(rid5, "k-FIFO pop: when the head segment is also the tail segment the tail is advanced before the element is taken, so that pushes move on to a "
+                   "new segment (otherwise elements in a short queue are overtaken without bound)")
+    for C, headf, tailf, adv in ((X + "kirsch_kfifo_queue::", "head_", "tail_", call("advance_tail")),
+                                 (B_, "_head", "_tail", cas_on("kirsch_bounded_kfifo_queue::_tail", "_tail CAS"))):
+        popf = "do_pop" if "bounded" in C else "try_pop"
+        pats = [C + popf] + ([C + "do_pop"] if "bounded" not in C else [])
+        done = False
+        for pat in pats:
+            for fn in ctx.facts.shapes(pat):
+                slot = [e for e in flow.find(fn, cas_on("entry::value", "slot CAS"))]
+                advs = flow.find(fn, adv)
+                if not slot:
+                    continue
+                done = True
+                same = lambda f_, nid: flow.cmp_between(f_, nid, ("==",), ["load:" + headf], ["load:" + tailf])
+                okg = bool(advs)
+                for a in advs:
+                    o, pth, n = flow.only_via(fn, a, same, True)
+                    okg = okg and o and n > 0
+                okr = bool(advs) and all(any(fn.event_reaches(a, s_) for a in advs) for s_ in slot)
+                ctx.check(okg and okr, rid5, pat + "#advance-tail|head==tail", "tail advanced (when head == tail) before the slot CAS",
+                          "pop takes an element from the segment that is both head and tail without advancing the tail first", fn.where(slot[0]), fn=fn)
+        if not done:
+            ctx.broken.append("k-FIFO pop path with a slot CAS not found for %s" % C)
     # field fit (bounded): queue size validated against the index width by a check that survives NDEBUG
     B = X + "kirsch_bounded_kfifo_queue::"
     rid3 = "KF.field-fit"
